@@ -240,6 +240,96 @@ theorem renamed_attribute_keeps_access (s s' : Struct) (hS : s.WF) (hb : s.IdsBe
   rw [coversClause_rename hS h hkc hkε]
   exact hiff
 
+/-- a clause whose attributes the structure knows stays known, under the new names, after a rename -/
+theorem clauseKnown_rename {s s' : Struct} (hS : s.WF) (hb : s.IdsBelow) {dn o n : String}
+    (h : s.renameAttribute dn o n = .ok s') {cl : List QA} (hk : Spec.clauseKnown s cl = true) :
+    Spec.clauseKnown s' (cl.map (renQA dn o n)) = true := by
+  unfold Spec.clauseKnown
+  rw [List.all_map]
+  apply List.all_eq_true.2
+  intro q hq
+  obtain ⟨d, b, hd, hbm⟩ := known_attr hk hq
+  obtain ⟨a, ha⟩ := Look.mem_lookup_isSome hbm
+  have hg : s.getAttribute q = .ok a := getAttribute_ok_iff.2 ⟨d, hd, ha⟩
+  obtain ⟨d', hd', ha'⟩ := getAttribute_ok_iff.1 (getAttribute_rename hS hb h hg)
+  simp only [Function.comp, hd']
+  exact pos_isSome_iff.2 ⟨a, Look.lookup_mem ha'⟩
+
+theorem clauseNodup_rename {dn o n : String} {cl : List QA} (h : ClauseNodup cl) :
+    ClauseNodup (cl.map (renQA dn o n)) := by
+  unfold ClauseNodup at h ⊢
+  rw [List.map_map]
+  have : ((fun q : QA => q.dim) ∘ renQA dn o n) = (fun q : QA => q.dim) := by
+    funext q; exact renQA_dim dn o n q
+  rw [this]; exact h
+
+/-- a rename request: dimension, old name, new name -/
+structure Ren where
+  dim : String
+  old : String
+  new : String
+
+/-- several renames in a row, each of them accepted (of any attributes, in any dimensions — the same
+attribute may be renamed again and again, a name given up may be taken by another attribute) -/
+def applyRens : Struct → List Ren → Except Err Struct
+  | s, [] => .ok s
+  | s, r :: rs => match s.renameAttribute r.dim r.old r.new with
+    | .ok s' => applyRens s' rs
+    | .error e => .error e
+
+/-- a clause read with the names of the end of the sequence -/
+def renClause : List Ren → List QA → List QA
+  | [], c => c
+  | r :: rs, c => renClause rs (c.map (renQA r.dim r.old r.new))
+
+/-- **Renamed attributes keep their access, through any number of renames.** A user key generated for
+the clause `cl` *before* a sequence of accepted renames, an encapsulation made *after* it for the clause
+`ε` written with the names of the end: one of the key's rights is the targeted right exactly when the
+name-level cover relation holds between the two clauses read with the final names in the final
+structure. (One rename: `renamed_attribute_keeps_access`.) -/
+theorem renamed_many_keep_access : ∀ (rs : List Ren) (s s' : Struct), s.WF → s.IdsBelow →
+    applyRens s rs = .ok s' → ∀ (cl ε : List QA), ClauseNodup cl → ClauseNodup ε →
+    Spec.clauseKnown s cl = true → Spec.clauseKnown s ε = true →
+    ∃ pts eas, s.complementaryPoints cl = .ok pts ∧
+      mapMExcept s'.getAttribute (renClause rs ε) = .ok eas ∧
+      ((∃ p ∈ pts, Right.fromPoint p = Right.fromPoint (eas.map (·.id))) ↔
+        Spec.coversClause s' (renClause rs cl) (renClause rs ε) = true) := by
+  -- the statement carried along the sequence: identifiers of `ε` and the verdict, as first computed
+  have key : ∀ (rs : List Ren) (s s' : Struct), s.WF → s.IdsBelow → applyRens s rs = .ok s' →
+      ∀ (cl ε : List QA) (eas : List Attr), Spec.clauseKnown s cl = true → Spec.clauseKnown s ε = true →
+      mapMExcept s.getAttribute ε = .ok eas →
+      mapMExcept s'.getAttribute (renClause rs ε) = .ok eas ∧
+        Spec.coversClause s' (renClause rs cl) (renClause rs ε) = Spec.coversClause s cl ε := by
+    intro rs
+    induction rs with
+    | nil =>
+      intro s s' _ _ h cl ε eas _ _ he
+      simp only [applyRens, Except.ok.injEq] at h
+      subst h
+      exact ⟨he, rfl⟩
+    | cons r rest ih =>
+      intro s s' hS hb h cl ε eas hkc hkε he
+      simp only [applyRens] at h
+      cases h1 : s.renameAttribute r.dim r.old r.new with
+      | error e => simp [h1] at h
+      | ok s1 =>
+        simp only [h1] at h
+        have hS1 : s1.WF := Struct.apply_wf (e := .rename r.dim r.old r.new) hS hb (by simpa [Struct.apply] using h1)
+        have hb1 : s1.IdsBelow := (Struct.apply_idsBelow (e := .rename r.dim r.old r.new) (by simpa [Struct.apply] using h1) hb).1
+        obtain ⟨h2, h3⟩ := ih s1 s' hS1 hb1 h (cl.map (renQA r.dim r.old r.new)) (ε.map (renQA r.dim r.old r.new)) eas
+          (clauseKnown_rename hS hb h1 hkc) (clauseKnown_rename hS hb h1 hkε) (mapM_getAttribute_rename hS hb h1 he)
+        refine ⟨h2, ?_⟩
+        simp only [renClause]
+        rw [h3, coversClause_rename hS h1 hkc hkε]
+  intro rs s s' hS hb h cl ε hcl hε hkc hkε
+  obtain ⟨pts, eas, hpts, heas, hiff⟩ := clause_right_iff hS hcl hε hkc hkε
+  obtain ⟨h2, h3⟩ := key rs s s' hS hb h cl ε eas hkc hkε heas
+  exact ⟨pts, eas, hpts, h2, by rw [h3]; exact hiff⟩
+
+/-- non-vacuity: two attributes exchange their names through a third one (three accepted renames) -/
+example : ∃ s', applyRens (Struct.empty.run [.addDim "D" false, .addAttr "D" "A" false none, .addAttr "D" "B" false none])
+    [⟨"D", "A", "T"⟩, ⟨"D", "B", "A"⟩, ⟨"D", "T", "B"⟩] = .ok s' := ⟨_, rfl⟩
+
 /-- non-vacuity: delete then add — the new attribute gets a new identifier (2), not the deleted one's (0) -/
 example : (Struct.empty.run [.addDim "D" false, .addAttr "D" "A" false none, .addAttr "D" "B" false none,
     .delAttr "D" "A", .addAttr "D" "C" false none]).dims = [("D", ⟨false, [("B", ⟨1, false, false⟩), ("C", ⟨2, false, false⟩)]⟩)] := by
